@@ -44,7 +44,11 @@ func (l *DList[T]) Unshift(value T) {
 	head := l.DoubleNode
 
 	newNode.next = &head
-	l.prev = newNode
+	// The old head now lives in a new location: relink its neighbours to it.
+	head.prev = &l.DoubleNode
+	if head.next != nil {
+		head.next.prev = &head
+	}
 
 	// Move the pointer to the new node.
 	l.DoubleNode = *newNode
@@ -89,6 +93,11 @@ func (l *DList[T]) InsertBefore(node *DoubleNode[T], value T) error {
 		newNode.prev.next = newNode
 	} else {
 		newNode.next = &head
+		// The old head now lives in a new location: relink its neighbours to it.
+		head.prev = &l.DoubleNode
+		if head.next != nil {
+			head.next.prev = &head
+		}
 		// Move the pointer to the new node.
 		l.DoubleNode = *newNode
 	}
@@ -158,6 +167,7 @@ func (l *DList[T]) Delete(node *DoubleNode[T]) error {
 	// Check if the node to be deleted is the head node.
 	if head.Value == node.Value {
 		l.DoubleNode = *head.next
+		l.relinkHead()
 		return nil
 	}
 
@@ -191,9 +201,18 @@ func (l *DList[T]) Shift() *DoubleNode[T] {
 	} else {
 		head = head.next
 		l.DoubleNode = *head
+		l.relinkHead()
 	}
 
 	return &node
+}
+
+// relinkHead repairs the links around the head after another node was copied into it.
+func (l *DList[T]) relinkHead() {
+	l.prev = nil
+	if l.next != nil {
+		l.next.prev = &l.DoubleNode
+	}
 }
 
 // Pop removes the last node from the list.
